@@ -298,6 +298,44 @@ Fixpoint late_all_n (q : quirks) (s : sig) (st : fstate) (ups : list (name * val
   | u :: r => match late_one_n q s st u with Ok st' => late_all_n q s st' r | Err e => Err e end
   end.
 
+(* Un-binding an argument: del f.k ([how_del]) or rebind(k=MISSING_VALUE) / f.k = MISSING_VALUE.
+   The attribute shows its default again (or nothing), the name is no longer specified
+   (Functor.__delattr__; _note_binding / _on_change for the MISSING_VALUE route).  The default /
+   non-default classification is refreshed by __delattr__ itself or by _on_change, i.e. not when the
+   MISSING_VALUE route is taken with change notification off.  Deleting a key that is not there is a
+   KeyError; rebinding it to MISSING_VALUE is a no-op. *)
+Definition unbind_one (s : sig) (st : fstate) (k : name) (how_del notify : bool) : result fstate :=
+  let refresh := how_del || notify in
+  if is_va s k then
+    Ok {| attrs := attrs st; vattr := []; spec := sdel k (spec st);
+          dflt := if refresh then sadd k (dflt st) else dflt st;
+          nond := if refresh then sdel k (nond st) else nond st; f_ov := f_ov st; f_ie := f_ie st |}
+  else if is_param s k then
+    let d := default_of s k in
+    Ok {| attrs := match d with Some dv => kset k dv (attrs st) | None => kdel k (attrs st) end;
+          vattr := vattr st; spec := sdel k (spec st);
+          dflt := if refresh then (match d with Some _ => sadd k (dflt st) | None => dflt st end) else dflt st;
+          nond := if refresh then sdel k (nond st) else nond st; f_ov := f_ov st; f_ie := f_ie st |}
+  else if has_kw s && kmem k (attrs st) then
+    Ok {| attrs := kdel k (attrs st); vattr := vattr st; spec := sdel k (spec st); dflt := dflt st;
+          nond := if refresh then sdel k (nond st) else nond st; f_ov := f_ov st; f_ie := f_ie st |}
+  else if how_del then Err EKeyError else Ok st.
+
+(* a step after construction: bind (with or without notification) or un-bind *)
+Inductive lstep : Type :=
+| LSet (k : name) (v : val) (notify : bool)
+| LUnbind (k : name) (how_del notify : bool).
+Definition late_one_u (q : quirks) (s : sig) (st : fstate) (u : lstep) : result fstate :=
+  match u with
+  | LSet k v notify => late_one_n q s st (k, v, notify)
+  | LUnbind k how_del notify => unbind_one s st k how_del notify
+  end.
+Fixpoint late_all_u (q : quirks) (s : sig) (st : fstate) (ups : list lstep) : result fstate :=
+  match ups with
+  | [] => Ok st
+  | u :: r => match late_one_u q s st u with Ok st' => late_all_u q s st' r | Err e => Err e end
+  end.
+
 (* _parse_call_time_overrides: positional arguments become keyword arguments *)
 Fixpoint call_positional (ps : list (name * option val)) (vs : list val) (sp : nset) (override : bool) (K : kmap val)
   : result (kmap val) :=
@@ -425,6 +463,21 @@ Definition cls_late_one (s : sig) (st : cstate) (k : name) (v : val) : result cs
     end
   else if accepts_key s k then Ok {| cattrs := kset k v (cattrs st); cvattr := cvattr st |}
   else Err EKeyError.
+Definition cls_unbind_one (s : sig) (st : cstate) (k : name) : result cstate :=
+  if is_va s k then Ok {| cattrs := cattrs st; cvattr := [] |}
+  else if is_param s k then
+    Ok {| cattrs := match default_of s k with Some dv => kset k dv (cattrs st) | None => kdel k (cattrs st) end; cvattr := cvattr st |}
+  else Ok {| cattrs := kdel k (cattrs st); cvattr := cvattr st |}.
+Definition cls_late_one_u (s : sig) (st : cstate) (u : lstep) : result cstate :=
+  match u with
+  | LSet k v _ => cls_late_one s st k v
+  | LUnbind k _ _ => cls_unbind_one s st k
+  end.
+Fixpoint cls_late_all_u (s : sig) (st : cstate) (ups : list lstep) : result cstate :=
+  match ups with
+  | [] => Ok st
+  | u :: r => match cls_late_one_u s st u with Ok st' => cls_late_all_u s st' r | Err e => Err e end
+  end.
 Fixpoint cls_late_all (s : sig) (st : cstate) (ups : list (name * val)) : result cstate :=
   match ups with
   | [] => Ok st
@@ -543,6 +596,27 @@ Fixpoint supply_lates (s : sig) (e : eff) (lates : list (name * val)) : result e
   | kv :: r => match supply s e {| cpos := []; ckw := [kv] |} true false with
                | Ok e' => supply_lates s e' r | Err x => Err x end
   end.
+(* un-supplying: the name (or the variadic values) is no longer supplied *)
+Definition unsupply (s : sig) (e : eff) (k : name) : eff :=
+  if is_va s k then {| enamed := enamed e; evar := None |} else {| enamed := kdel k (enamed e); evar := evar e |}.
+Definition supply_step (s : sig) (e : eff) (u : lstep) : result eff :=
+  match u with
+  | LSet k v _ => supply s e {| cpos := []; ckw := [(k, v)] |} true false
+  | LUnbind k _ _ => Ok (unsupply s e k)
+  end.
+Fixpoint supply_steps (s : sig) (e : eff) (ups : list lstep) : result eff :=
+  match ups with
+  | [] => Ok e
+  | u :: r => match supply_step s e u with Ok e' => supply_steps s e' r | Err x => Err x end
+  end.
+Definition effective_u (s : sig) (ctor : call) (steps : list lstep) (c : call) (override ie : bool) : result eff :=
+  match supply s eff0 ctor false false with
+  | Err x => Err x
+  | Ok e1 => match supply_steps s e1 steps with
+             | Err x => Err x
+             | Ok e2 => supply s e2 c override ie
+             end
+  end.
 (* construction, later bindings, call *)
 Definition effective (s : sig) (ctor : call) (lates : list (name * val)) (c : call) (override ie : bool) : result eff :=
   match supply s eff0 ctor false false with
@@ -567,6 +641,12 @@ Definition spec_outcome (s : sig) (ctor : call) (lates : list (name * val)) (c :
   | Ok e => py_bind s (effective_call s e)
   end.
 
+Definition spec_outcome_u (s : sig) (ctor : call) (steps : list lstep) (c : call) (override ie : bool) : result bound :=
+  match effective_u s ctor steps c override ie with
+  | Err x => Err x
+  | Ok e => py_bind s (effective_call s e)
+  end.
+
 (* the whole functor pipeline *)
 Definition functor_bind (q : quirks) (s : sig) (ctor : call) (ov ie : bool) (lates : list (name * val))
     (c : call) (ovo ieo : option bool) : result bound :=
@@ -582,7 +662,8 @@ Definition functor_bind (q : quirks) (s : sig) (ctor : call) (ov ie : bool) (lat
    val    ::= z | (z ...)                         integer | list of integers
    sig    ::= (((name (dflt)?) ...) (va)? ((name (dflt)?) ...) (kw)? posonly)
    call   ::= ((val ...) ((name val) ...))
-   case   ::= (0 (q) sig ctor (ov ie) ((name val notify) ...) call ((ov)? (ie)?) post)   functor; post: 0 none 1 clone 2 json
+   step   ::= (name val notify) | (name () notify del)                          bind | un-bind (del: 1 = del f.k, 0 = MISSING_VALUE)
+   case   ::= (0 (q) sig ctor (ov ie) (step ...) call ((ov)? (ie)?) post)   functor; post: 0 none 1 clone 2 json
             | (1 sig ctor partial ((name val) ...))                               symbolized class
             | (2 sig call)                                                        py_bind
             | (3 sig)                                                             generated __init__ signature
@@ -629,28 +710,29 @@ Definition d_call (t : tr) : option call :=
   | _ => None
   end.
 
-Definition d_late (t : tr) : option (name * val * bool) :=
+Definition d_late (t : tr) : option lstep :=
   match t with
-  | L [k; v; b] => do k' <- dN k; do v' <- d_val v; do b' <- dbool b; Some (k', v', b')
+  | L [k; v; b] => do k' <- dN k; do v' <- d_val v; do b' <- dbool b; Some (LSet k' v' b')
+  | L [k; L []; b; h] => do k' <- dN k; do b' <- dbool b; do h' <- dbool h; Some (LUnbind k' h' b')
   | _ => None
   end.
-Definition run_functor (q : quirks) (s : sig) (ctor : call) (ov ie : bool) (lates : list (name * val * bool))
+Definition run_functor (q : quirks) (s : sig) (ctor : call) (ov ie : bool) (lates : list lstep)
     (c : call) (ovo ieo : option bool) (post : Z) : tr :=
   match functor_ctor s ctor ov ie with
   | Err e => L [L [I 1; I 0; e_kind e]; L []]
   | Ok st =>
-      match late_all_n q s st lates with
+      match late_all_u q s st lates with
       | Err e => L [L [I 1; I 1; e_kind e]; L []]
       | Ok st1 =>
           let st2 := if Z.eqb post 1 then clone_state st1 else if Z.eqb post 2 then json_state s st1 else st1 in
           L [L [I 0; e_state st2]; e_bound (functor_call s st2 c ovo ieo)]
       end
   end.
-Definition run_class (s : sig) (ctor : call) (partial : bool) (lates : list (name * val)) : tr :=
+Definition run_class (s : sig) (ctor : call) (partial : bool) (lates : list lstep) : tr :=
   match cls_ctor s ctor partial with
   | Err e => L [L [I 1; I 0; e_kind e]; L []]
   | Ok st =>
-      match cls_late_all s st lates with
+      match cls_late_all_u s st lates with
       | Err e => L [L [I 1; I 1; e_kind e]; L []]
       | Ok st1 =>
           L [L [I 0; L (map e_kv (cattrs st1)); L (map e_val (cvattr st1))];
@@ -667,7 +749,7 @@ Definition run (c : tr) : tr :=
       | _, _, _, _, _, _, _, _, _ => ebad
       end
   | L [I 1; s; ctor; partial; lates] =>
-      match d_sig s, d_call ctor, dbool partial, dlist d_kv lates with
+      match d_sig s, d_call ctor, dbool partial, dlist d_late lates with
       | Some s', Some ctor', Some p', Some lates' => run_class s' ctor' p' lates'
       | _, _, _, _ => ebad
       end
@@ -679,9 +761,9 @@ Definition run (c : tr) : tr :=
   | L [I 3; s] =>
       match d_sig s with Some s' => e_sig (generated_init_sig s') | None => ebad end
   | L [I 4; s; ctor; lates; cl; ov; ie] =>
-      match d_sig s, d_call ctor, dlist d_kv lates, d_call cl, dbool ov, dbool ie with
+      match d_sig s, d_call ctor, dlist d_late lates, d_call cl, dbool ov, dbool ie with
       | Some s', Some ctor', Some lates', Some cl', Some ov', Some ie' =>
-          match effective s' ctor' lates' cl' ov' ie' with
+          match effective_u s' ctor' lates' cl' ov' ie' with
           | Ok e => L [I 0; e_call (effective_call s' e)]
           | Err x => L [I 1; e_kind x]
           end
